@@ -7,7 +7,7 @@ class sizes.  Allocation histories are NOT decided.
 """
 import os
 from . import common
-from .common import AnalysisBroken, walk, strip, render, calls
+from .common import AnalysisBroken, walk, strip, render, calls, const_value
 
 EXPLANATION = (
     "C10-T: from the constant-evaluated initialisers of store.c (both the compiler and the -DFOAM_RTS configuration): "
@@ -679,6 +679,15 @@ def check_foreign_roots(rep, config):
     f = common.extract("store.c", config, trees=["stoGcMark"])
     fn = f.func("stoGcMark")
     n = 0
+    # the size of a page: the stride of the type pgAt() points to
+    page = f.raw.get("typedefs", {}).get("Page") if isinstance(f.raw.get("typedefs"), dict) else None
+    page_size = None
+    for x in walk(fn["body"]):
+        if x.get("mac") == "PgSize" and const_value(x) is not None and x["k"] in ("ParenExpr", "BinaryOperator") and \
+                x["k"] == "ParenExpr":
+            page_size = const_value(x)
+    if page_size is None:
+        raise AnalysisBroken("stoGcMark: the value of PgSize could not be read from the tree")
     for lp in walk(fn["body"]):
         if lp["k"] != "ForStmt":
             continue
@@ -728,8 +737,7 @@ def check_foreign_roots(rep, config):
         hi_ok = False
         if hi is not None and hi["k"] == "BinaryOperator" and hi["op"] == "+":
             a, b = strip(hi["c"][0]), strip(hi["c"][1])
-            if a is not None and a["k"] == "DeclRefExpr" and a["n"] == pvar and (b.get("mac") == "PgSize" or render(b) == "PgSize" or
-                                                                                  (const_value(b) is not None and const_value(b) >= 4096)):
+            if a is not None and a["k"] == "DeclRefExpr" and a["n"] == pvar and const_value(b) == page_size:
                 hi_ok = True
         if lo_ok and hi_ok:
             rep.ok("T-roots", key, sample={"index": idx, "page pointer": pvar})
